@@ -195,16 +195,25 @@ class DateTime(SimpleModel):
 
     @staticmethod
     def validate_native(cls, value):
-        if isinstance(value, datetime.datetime) and value.tzinfo is None:
-            value = value.replace(tzinfo=spyne.LOCAL_TZ)
+        # a bound declared without a zone is in the local zone, like a value
+        # that arrives without one
+        def _aware(dt):
+            if isinstance(dt, datetime.datetime) and dt.tzinfo is None:
+                return dt.replace(tzinfo=spyne.LOCAL_TZ)
+            return dt
+
+        value = _aware(value)
+        gt, ge = _aware(cls.Attributes.gt), _aware(cls.Attributes.ge)
+        lt, le = _aware(cls.Attributes.lt), _aware(cls.Attributes.le)
+
         return SimpleModel.validate_native(cls, value) and (
             value is None or (
                 # min_dt is also a valid value if gt is intact.
-                    (cls.Attributes.gt is None or value > cls.Attributes.gt)
-                and value >= cls.Attributes.ge
+                    (gt is None or value > gt)
+                and value >= ge
                 # max_dt is also a valid value if lt is intact.
-                and (cls.Attributes.lt is None or value < cls.Attributes.lt)
-                and value <= cls.Attributes.le
+                and (lt is None or value < lt)
+                and value <= le
             ))
 
 
